@@ -279,6 +279,14 @@ def gen(tier, seed):
                               ('cart', 'updated'), ('tm', 'updated')):
                 yield {'cfg': cfg, 'rep': rep, 'pos': list(pos), 'h': 603.2489, 'H': None if rep == 'cart' else 588.9799, 'nval': 14.269,
                        'depth': 2, 'form': form}
+    # projected coordinates given directly, in BOTH hemispheres of every projection (an ISG-style grid used north of the equator is
+    # unusual, not illegal: the hemisphere flag means the same for every projection)
+    for cfg, grids in (('ans-isg', ([561, 318743.2, 1291327.7, True], [553, 250000.0, 3500000.0, True], [561, 318743.2, 1291327.7, False])),
+                       ('grs80-utm', ([31, 612345.6789, 6234567.891, True], [60, 400000.0, 2000000.0, True])),
+                       ('ans-utm', ([1, 700000.0, 500000.0, True],))):
+        for grid in grids:
+            for (h, H) in ((None, None), (603.2489, 588.9799)):
+                yield {'cfg': cfg, 'rep': 'tmfixed', 'grid': list(grid), 'pos': [0.0, 0.0], 'h': h, 'H': H, 'depth': 3}
     # the SAME grid numbers interpreted on two ellipsoids within one process, in both orders
     for a, b in (('grs80-utm', 'ans-utm'), ('ans-utm', 'grs80-utm')):
         for grid in ([55, 300000.0, 6200000.0, False], [31, 612345.6789, 1234567.891, True]):
